@@ -4,6 +4,70 @@
 mod elems;
 mod sched;
 
+/// counting global allocator: live bytes and blocks of the whole process (C15: repeating create / consume / drop must not grow them)
+mod counting {
+    use std::alloc::{GlobalAlloc, Layout, System};
+    use std::sync::atomic::{AtomicIsize, Ordering};
+    pub static LIVE_BYTES: AtomicIsize = AtomicIsize::new(0);
+    pub static LIVE_BLOCKS: AtomicIsize = AtomicIsize::new(0);
+    pub struct Counting;
+    unsafe impl GlobalAlloc for Counting {
+        unsafe fn alloc(&self, l: Layout) -> *mut u8 {
+            let p = System.alloc(l);
+            if !p.is_null() {
+                LIVE_BYTES.fetch_add(l.size() as isize, Ordering::Relaxed);
+                LIVE_BLOCKS.fetch_add(1, Ordering::Relaxed);
+            }
+            p
+        }
+        unsafe fn dealloc(&self, p: *mut u8, l: Layout) {
+            System.dealloc(p, l);
+            LIVE_BYTES.fetch_sub(l.size() as isize, Ordering::Relaxed);
+            LIVE_BLOCKS.fetch_sub(1, Ordering::Relaxed);
+        }
+        unsafe fn alloc_zeroed(&self, l: Layout) -> *mut u8 {
+            let p = System.alloc_zeroed(l);
+            if !p.is_null() {
+                LIVE_BYTES.fetch_add(l.size() as isize, Ordering::Relaxed);
+                LIVE_BLOCKS.fetch_add(1, Ordering::Relaxed);
+            }
+            p
+        }
+        unsafe fn realloc(&self, p: *mut u8, l: Layout, new_size: usize) -> *mut u8 {
+            let q = System.realloc(p, l, new_size);
+            if !q.is_null() {
+                LIVE_BYTES.fetch_add(new_size as isize - l.size() as isize, Ordering::Relaxed);
+            }
+            q
+        }
+    }
+    pub fn live() -> (isize, isize) {
+        (LIVE_BYTES.load(Ordering::SeqCst), LIVE_BLOCKS.load(Ordering::SeqCst))
+    }
+    /// the worker threads of a case release their stacks' bookkeeping (thread handle, thread-locals) shortly after
+    /// they have been joined: wait until the figures stand still
+    pub fn settled() -> (isize, isize) {
+        let mut last = live();
+        let mut same = 0;
+        for _ in 0..400 {
+            std::thread::sleep(std::time::Duration::from_micros(50));
+            let now = live();
+            if now == last {
+                same += 1;
+                if same >= 4 {
+                    break;
+                }
+            } else {
+                same = 0;
+                last = now;
+            }
+        }
+        last
+    }
+}
+#[global_allocator]
+static GLOBAL: counting::Counting = counting::Counting;
+
 use elems::*;
 use orx_concurrent_iter::iter::atomic_iter::AtomicIter;
 use orx_concurrent_iter::verif_shim::{self, Kind, Op as AOp, Ty};
@@ -57,6 +121,7 @@ struct Env {
     hint: String,
     owning: bool,
     crash: Option<u64>,
+    elem: String,
 }
 
 #[derive(Clone, Debug)]
@@ -175,6 +240,7 @@ fn read_cases(input: &mut dyn BufRead) -> Vec<Case> {
             "seed" => cur.as_mut().unwrap().seed = w[1].parse().unwrap(),
             "reps" => cur.as_mut().unwrap().reps = w[1].parse().unwrap(),
             "freeze" => cur.as_mut().unwrap().freeze = Some((w[1].parse().unwrap(), w[2].parse().unwrap())),
+            "elem" => cur.as_mut().unwrap().env.elem = w[1].to_string(),
             "sched" => {
                 let c = cur.as_mut().unwrap();
                 c.sched = match w[1] {
@@ -572,11 +638,52 @@ macro_rules! array_case {
     };
 }
 
+macro_rules! zarray_case {
+    ($case:expr, $($n:literal),*) => {
+        match $case.env.len {
+            $( $n => { let a: [Z; $n] = std::array::from_fn(|_| Z); drive($case, a.into_con_iter()) } )*
+            n => vec![format!("case {}", $case.id), format!("unsupported array length {}", n), "end".into()],
+        }
+    };
+}
+
+/// zero-sized elements with a destructor: only the numbers of drops can be observed
+fn run_case_zst(case: &Case) -> Vec<String> {
+    let env = &case.env;
+    let len = env.len;
+    ZCALLER.store(0, Ordering::SeqCst);
+    ZMACH.store(0, Ordering::SeqCst);
+    let hint = match env.hint.as_str() {
+        "exact" => 0u8,
+        "inexact" => 1,
+        _ => 2,
+    };
+    let mut out = match env.kind.as_str() {
+        "vec" => {
+            let v: Vec<Z> = (0..len).map(|_| Z).collect();
+            drive(case, v.into_con_iter())
+        }
+        "array" => zarray_case!(case, 0, 1, 2, 3, 4, 5, 6, 7, 8, 9, 10, 11, 12),
+        "iter" => {
+            let v: Vec<Z> = (0..len).map(|_| Z).collect();
+            drive(case, Probe { inner: v.into_iter(), hint }.into_con_iter())
+        }
+        k => vec![format!("case {}", case.id), format!("unsupported kind {} for zero-sized elements", k), "end".into()],
+    };
+    let line = format!("Z caller={} machinery={} len={}", ZCALLER.load(Ordering::SeqCst), ZMACH.load(Ordering::SeqCst), len);
+    let n = out.len();
+    out.insert(n - 1, line);
+    out
+}
+
 fn run_case(case: &Case) -> Vec<String> {
     SRC_CALLS.store(0, Ordering::SeqCst);
     SRC_CRASH.store(case.env.crash.map(|x| x as usize).unwrap_or(usize::MAX), Ordering::SeqCst);
     CALLER_PHASE.store(false, Ordering::SeqCst);
     let env = &case.env;
+    if env.elem == "zst" {
+        return run_case_zst(case);
+    }
     let len = env.len;
     let hint = match env.hint.as_str() {
         "exact" => 0u8,
@@ -644,13 +751,26 @@ fn main() {
     let stdout = std::io::stdout();
     let mut w = std::io::BufWriter::new(stdout.lock());
     for case in &cases {
+        let reps = case.reps.max(1);
         let mut out = vec![];
-        for _ in 0..case.reps.max(1) {
+        let mut mark = (0isize, 0isize);
+        for rep in 0..reps {
+            drop(std::mem::take(&mut out));
+            if rep == 1 {
+                // everything that is initialised lazily has been initialised by the first repetition
+                mark = counting::settled();
+            }
             out = run_case(case);
         }
-        for l in out {
+        for l in &out {
             writeln!(w, "{}", l).unwrap();
         }
+        drop(out);
         w.flush().unwrap();
+        if reps >= 2 {
+            let now = counting::settled();
+            writeln!(w, "alloc {} reps={} growth_bytes={} growth_blocks={}", case.id, reps, now.0 - mark.0, now.1 - mark.1).unwrap();
+            w.flush().unwrap();
+        }
     }
 }
